@@ -29,6 +29,12 @@ Oracle (clauses):
   moreau      prox_{s f}(x) + s prox_{f*/s}(x/s) = x whenever both exist
   sup         f*(y) against sup_z <y,z> - f(z) by Nelder-Mead for smooth
               functionals in dimension <= 3
+  param-snapshot
+              history clause: after the caller mutates an element it passed
+              as a parameter (translation, linear term, Bregman point and
+              sub-gradient, prior, vectors) value, conjugate, biconjugate,
+              gradient and both proximals must all be unchanged or all
+              follow (noted); a mix is a violation
   not-offered conjugates documented as not implemented / not defined raise
 """
 import numpy as np
@@ -90,8 +96,19 @@ TOLERANCES = {
     'moreau': 'max|prox_sf(x)+s*prox_{f*/s}(x/s)-x| <= (256*eps + 40*'
               'resolution(dtype))*(1+max|x|+s*max|p2|) (the library shrinks '
               'some thresholds by 10*resolution on purpose)',
+    'moreau_non_finite': 'a non-finite proximal value is a violation unless '
+                         'the inputs are beyond the safe range of the dtype: '
+                         '(1+s+1/s)*max|x| + (1+s)*C > 0.4*log(max) for '
+                         'exp/log based functionals, 1e-3*sqrt(max) else; the '
+                         'Moreau clause is evaluated at the generic point and '
+                         'at sparse points (zeros planted at every second '
+                         'position, in all components of vector fields; x = 0; '
+                         'x = translation)',
+    'param_snapshot': 'observations before / after / rebuilt compared with '
+                      'rtol 1e-10, atol 1e-13 (nan == nan)',
     'sup_oracle': '|f*(y) - sup| <= 1e-6*(1+|f*(y)|), only when Nelder-Mead '
-                  'converged (restarts until no progress) and |f*(y)| < 1e6',
+                  'converged (restarts until no progress) and |f*(y)| < 1e6; '
+                  'not for priors with zeros (supremum not attained)',
 }
 ASSUMPTIONS = [
     'real floating-point spaces only (Functional assumes a real field)',
@@ -116,7 +133,8 @@ REQUIRED_STRATA = [
     'space:product', 'w:unit', 'w:const', 'w:array',
     'clause:fy', 'clause:fy-adv', 'clause:fy-eq-ref', 'clause:fy-eq-conj',
     'clause:fy-eq-libgrad', 'clause:biconj', 'clause:moreau', 'clause:sup',
-    'clause:conj-value', 'clause:not-offered',
+    'clause:conj-value', 'clause:not-offered', 'clause:param-snapshot',
+    'points:generic', 'points:sparse',
     'rule:leftscal', 'rule:rightscal', 'rule:rightvec', 'rule:scalarsum',
     'rule:translated', 'rule:quadperturb', 'rule:infconv', 'rule:bregman',
     'rule:sepsum', 'rule:sepsum_power',
@@ -437,6 +455,10 @@ def _check_node(B, pts, top, fd, ctx, probe=True, do_sup=True):
         if xd is not xraw:
             xs.append(xd)
         xs.append(zraw)
+    sp = _sparse_points(B, xraw)
+    if sp:
+        # value class "sparse": exact zeros planted at fixed positions
+        xs.append(sp[0])
     ys = [yraw]
     ccenter = None
     if ref is not None:
@@ -750,7 +772,8 @@ def _check_node(B, pts, top, fd, ctx, probe=True, do_sup=True):
 
     # ---- (5) numerical sup oracle -------------------------------------------
     if do_sup and f_eval and c_eval and ref is not None and ref.smooth and \
-            n <= 3 and not ref.thin_conj_dom and not f32 and sk != 'field':
+            n <= 3 and 'prior=zeros' not in region and \
+            not ref.thin_conj_dom and not f32 and sk != 'field':
         ye, yf = Ys[-1]
         rv = ref.conj(yf)
         start = xs[1] if len(xs) > 2 else xs[0]
@@ -777,55 +800,70 @@ def _check_node(B, pts, top, fd, ctx, probe=True, do_sup=True):
     except (NotImplementedError, TypeError, ValueError):
         pf = pc = None
     if pf is not None and pc is not None and sk != 'field':
-        xe, xf = Xs[-1] if len(Xs) > 1 else Xs[0]
         try:
             P1 = pf(sigma)
             P2 = pc(1.0 / sigma)
         except NotImplementedError:
             P1 = P2 = None
+        mpts = []
         if P1 is not None:
+            base = xs[-1] if len(xs) > 1 else xs[0]
+            mpts = [('generic', base)] + [
+                ('sparse', v) for v in _sparse_points(B, base)]
+        for kind, xv in mpts:
+            xe, xf = X(xv)
             try:
                 p1 = P1(xe)
                 p2 = P2(xe / sigma)
             except NotImplementedError:
-                p1 = None
+                break
             except Exception as e:  # noqa
                 if _huber_prox_known(B) and not probe:
-                    p1 = None
                     strata.append('excluded:C08-K5')
+                    break
                 elif _huber_prox_known(B):
                     raise Violation(
                         sig('moreau-crash'),
                         '{}: {}'.format(type(e).__name__, str(e)[:200]))
                 else:
                     raise
-            if p1 is not None:
-                if p1 not in space or p2 not in space:
-                    raise Violation(sig('moreau'),
-                                    'proximal result not in the space')
-                a, b = flat.flat(p1, space), flat.flat(p2, space)
-                if not (np.all(np.isfinite(a)) and np.all(np.isfinite(b))):
-                    # overflow inside a proximal (e.g. exp in float32) is
-                    # C07's business, the identity cannot be judged
-                    note('moreau_nonfinite_prox')
-                    a = None
-            if p1 is not None and a is not None:
-                r = a + sigma * b - xf
-                res = np.finfo(np.float32 if f32 else np.float64).resolution
-                t = (256 * eps + 40 * res) * (
-                    1.0 + float(np.max(np.abs(xf))) +
-                    sigma * float(np.max(np.abs(b))) +
-                    float(np.max(np.abs(a))))
-                hit('moreau')
-                if np.all(np.isfinite(r)):
-                    finite_hits[0] += 1
-                if not np.all(np.abs(r) <= t):
-                    raise Violation(
-                        sig('moreau'),
-                        'prox_sf(x) + s prox_(f*/s)(x/s) - x = {} (tol '
-                        '{:.3g}); sigma={} x={} p1={} p2={}'.format(
-                            r.tolist(), t, sigma, xf.tolist(), a.tolist(),
-                            b.tolist()))
+            if p1 not in space or p2 not in space:
+                raise Violation(sig('moreau'),
+                                'proximal result not in the space')
+            a, b = flat.flat(p1, space), flat.flat(p2, space)
+            strata.append('points:' + kind) if ('points:' + kind) \
+                not in strata else None
+            if not (np.all(np.isfinite(a)) and np.all(np.isfinite(b))):
+                # only genuine overflow is skipped, and that is decided
+                # from the inputs, never from the result
+                if _overflow_prone(B, xf, sigma, rscale, f32):
+                    note('moreau_overflow_range')
+                    continue
+                raise Violation(
+                    sig('moreau-non-finite'),
+                    'non-finite proximal value at a {} point: prox_sf(x) = '
+                    '{}, prox_(f*/s)(x/s) = {}; sigma={} x={}'.format(
+                        kind, a.tolist(), b.tolist(), sigma, xf.tolist()))
+            r = a + sigma * b - xf
+            res = np.finfo(np.float32 if f32 else np.float64).resolution
+            t = (256 * eps + 40 * res) * (
+                1.0 + float(np.max(np.abs(xf))) +
+                sigma * float(np.max(np.abs(b))) +
+                float(np.max(np.abs(a))))
+            hit('moreau')
+            finite_hits[0] += 1
+            if not np.all(np.abs(r) <= t):
+                raise Violation(
+                    sig('moreau'),
+                    'prox_sf(x) + s prox_(f*/s)(x/s) - x = {} (tol '
+                    '{:.3g}) at a {} point; sigma={} x={} p1={} p2={}'.format(
+                        r.tolist(), t, kind, sigma, xf.tolist(), a.tolist(),
+                        b.tolist()))
+
+    # ---- (7) functionals are snapshots of their element-valued parameters ---
+    if B.extra.get('params') and sk != 'field':
+        _param_snapshot(B, f, Xs, Ys, sigma, sig, hit, note, f_eval, probe,
+                        strata)
 
     nontrivial = finite_hits[0] > 0 and (B.children or sk != 'rn' or
                                          wk != 'unit')
@@ -851,6 +889,144 @@ def _moderate(v, f32):
     lim = 1e-3 * np.sqrt(np.finfo(np.float32 if f32 else np.float64).max)
     return bool(np.all(np.isfinite(v))) and (
         v.size == 0 or float(np.max(np.abs(v))) < lim)
+
+
+def _sparse_points(B, v):
+    """Value class ``sparse``: copies of ``v`` with exact zeros planted at
+    deterministic positions (vector fields: the same positions in every
+    component), the zero vector, and the translation of translated
+    functionals."""
+    v = np.asarray(v, float)
+    n = v.size
+    out = []
+    if n == 0:
+        return out
+    w = v.copy()
+    g = B.geo
+    if g.power is not None:
+        m, nb = g.power
+        W = w.reshape(m, nb)
+        W[:, ::2] = 0.0          # points 0, 2, ... vanish in all components
+        w = W.ravel()
+    elif g.matrix is not None:
+        m1, m2, nb = g.matrix
+        W = w.reshape(m1, m2, nb)
+        W[:, :, ::2] = 0.0
+        w = W.ravel()
+    else:
+        w[::2] = 0.0
+    out.append(w)
+    out.append(np.zeros(n))
+    for b in B.nodes():
+        if b.cls == 'translated' and b.geo is B.geo:
+            out.append(np.asarray(b.extra['tf'], float).copy())
+            break
+    return out
+
+
+def _overflow_prone(B, xf, sigma, rscale, f32):
+    """Inputs beyond the safe range of the dtype (decided from the inputs):
+    exp/log based functionals overflow once the arguments reach a fraction
+    of log(max), everything else once their squares do."""
+    fi = np.finfo(np.float32 if f32 else np.float64)
+    mag = (1.0 + sigma + 1.0 / sigma) * (
+        float(np.max(np.abs(xf))) if xf.size else 0.0) + \
+        (1.0 + sigma) * rscale
+    has_exp = any(b.cls in ('KL', 'KLConj', 'KLCE', 'KLCEConj')
+                  for b in B.nodes())
+    lim = 0.4 * np.log(fi.max) if has_exp else 1e-3 * np.sqrt(fi.max)
+    return mag > lim
+
+
+def _same(a, b):
+    if a is None or b is None:
+        return a is None and b is None
+    a, b = np.asarray(a, float), np.asarray(b, float)
+    return a.shape == b.shape and bool(np.allclose(
+        a, b, rtol=1e-10, atol=1e-13, equal_nan=True))
+
+
+def _param_snapshot(B, f, Xs, Ys, sigma, sig, hit, note, f_eval, probe,
+                    strata):
+    """History clause: after the caller mutates an element it passed as a
+    parameter, value / conjugate / gradient / proximals must either all be
+    unchanged (snapshot) or all follow (consistent by-reference, noted); a
+    mix is a violation."""
+    space = B.space
+
+    def observe(func):
+        obs = {}
+
+        def put(key, fn):
+            try:
+                v = fn()
+            except Exception:  # noqa  (not offered / not evaluable)
+                return
+            obs[key] = (flat.flat(v, space) if v in space
+                        else np.array([float(v)]))
+
+        xe, ye = Xs[0][0], Ys[0][0]
+        xe2 = Xs[-1][0]
+        if f_eval:
+            put('value', lambda: func(xe))
+            put('value2', lambda: func(xe2))
+        put('conj', lambda: func.convex_conj(ye))
+        put('biconj', lambda: func.convex_conj.convex_conj(xe))
+        put('gradient', lambda: func.gradient(xe2))
+        put('proximal', lambda: func.proximal(sigma)(xe))
+        put('conj-proximal', lambda: func.convex_conj.proximal(sigma)(ye))
+        return obs
+
+    params = B.extra['params']
+    for which in sorted(params):
+        if B.cls == 'bregman' and which == 'subgrad' and not probe:
+            # known: BregmanDistance.gradient keeps `subgrad` by reference
+            # while value / conjugate / proximal use a snapshot (C08-K8)
+            strata.append('excluded:C08-K8')
+            continue
+        par = params[which]
+        orig = par.copy()
+        old = observe(f)
+        try:
+            par *= 2.0
+            par += 0.25
+            after = observe(f)
+            fresh = dict((k, (v.copy() if k != which else par.copy()))
+                         for k, v in params.items())
+            try:
+                new = observe(B.extra['remake'](fresh))
+            except Exception:  # noqa  (mutated value not admissible)
+                new = {}
+        finally:
+            par.assign(orig)
+        hit('param-snapshot')
+        kinds = {}
+        for key in sorted(old):
+            if key not in after:
+                # no longer evaluable: consistent with a rebuilt functional
+                # that cannot be evaluated either (mutated value outside
+                # the domain)
+                if key in new:
+                    kinds[key] = 'other'
+            elif _same(after[key], old[key]):
+                if key in new and not _same(new[key], old[key]):
+                    kinds[key] = 'snapshot'
+            elif key in new and _same(after[key], new[key]):
+                kinds[key] = 'by-reference'
+            else:
+                kinds[key] = 'other'
+        seen = set(kinds.values())
+        if not seen or seen == {'snapshot'}:
+            continue
+        if seen == {'by-reference'}:
+            note('param_by_reference:{}.{}'.format(B.cls, which))
+            continue
+        raise Violation(
+            'C08|param-snapshot|{}|{}'.format(type(f).__name__, which),
+            'after mutating the element passed as `{}` in place the '
+            'functional is neither a snapshot nor consistently by-reference:'
+            ' {}'.format(which, ', '.join(
+                '{}: {}'.format(k, kinds[k]) for k in sorted(kinds))))
 
 
 def _ref_scale(ref):
